@@ -175,7 +175,64 @@ class FnBounds:
                 out.append(b.add(a, -1))
             elif pred == "slt":
                 out.append(b.add(a, -1).add(Lin.const(-1)))
-        return out + self.inv_facts + self.and_facts()
+        return out + self.inv_facts + self.and_facts() + self.switch_facts(block) + self.trip_facts(block)
+
+    def trip_facts(self, block):
+        """inside a loop the iteration counter never exceeds ScalarEvolution's backedge-taken count (when that is affine and the loop has
+        a single exit): this is what bounds a do/while body, whose test sits at the bottom"""
+        f, A = self.f, self.A
+        out = []
+        for L in f.loops:
+            if block not in L["blocks"] or len(L.get("exiting", [])) != 1:
+                continue
+            t = L.get("btc")
+            if not t or t.get("k") == "cnc":
+                continue
+            try:
+                T = A.scev(t)
+            except Exception:
+                T = None
+            if T is None:
+                continue
+            out.append(T.add(Lin.sym(("k", L["header"])), -1))
+        return out
+
+    def switch_facts(self, block):
+        """a dominating switch: the switched value lies between the smallest and largest case value whose target can reach this
+        block (fall-through included) when the default target cannot"""
+        f, A = self.f, self.A
+        cache = getattr(self, "_swcache", None)
+        if cache is None:
+            cache = self._swcache = {}
+        if block in cache:
+            return cache[block]
+        out = []
+
+        def reach(src, dst, avoid):
+            seen, todo = set(), [src]
+            while todo:
+                x = todo.pop()
+                if x == dst:
+                    return True
+                if x in seen or x == avoid:
+                    continue
+                seen.add(x)
+                todo.extend(f.blocks[x].succs)
+            return False
+        d = f.blocks[block].idom
+        guard = 0
+        while d != -1 and guard < 200:
+            guard += 1
+            t = f.term(d)
+            if t is not None and t.op == "switch" and t.get("cases") is not None:
+                vals = [int(cv) for cv, dst in t.get("cases") if reach(dst, block, d)]
+                if vals and not reach(t.get("default"), block, d):
+                    v = A.value(tuple(t.ops[0]))
+                    out.append(v.add(Lin.const(-min(vals))))
+                    out.append(v.scale(-1).add(Lin.const(max(vals))))
+            d = f.blocks[d].idom
+        cache[block] = out
+        return out
 
     def _strict_gap(self, d):
         """d > 0 is known; if every term of d is a multiple of g (iteration counters scaled by g, values masked with ~(g-1)) then d >= g"""
@@ -230,6 +287,24 @@ class FnBounds:
                 if w1 == w2 and A.value(x1) == A.value(x2) and (c1 & c2) == 0 and (c1 | c2) == (1 << w1) - 1:
                     e = A.value(t1).add(A.value(t2)).add(A.value(x1), -1)
                     out += [e, e.scale(-1)]
+        # t = x / c, t = x % c, t = x >> k (unsigned): c*t <= x <= c*t + c - 1;  x % c <= c - 1, x % c <= x
+        for I in f.insts:
+            if I.op in ("udiv", "urem", "lshr") and I.ops[1][0] == "c":
+                cv = int(I.ops[1][1])
+                if I.op == "lshr":
+                    if not 0 < cv < 32:
+                        continue
+                    cv = 1 << cv
+                if not 1 < cv <= 65536:
+                    continue
+                t = A.value(("i", I.id))
+                xv = A.value(tuple(I.ops[0]))
+                if I.op in ("udiv", "lshr"):
+                    out.append(xv.add(t, -cv))                                   # x - c*t >= 0
+                    out.append(t.scale(cv).add(Lin.const(cv - 1)).add(xv, -1))   # c*t + c - 1 - x >= 0
+                else:
+                    out.append(Lin.const(cv - 1).add(t, -1))
+                    out.append(xv.add(t, -1))
         self._and_facts = out
         return out
 
@@ -274,15 +349,25 @@ class FnBounds:
                     R2 = R.add(e, -R[s] // e[s] if e[s] != 0 else 0) if False else R.add(e.scale(-R[s] * e[s]))
                     if self._trivially_nonneg(R2):
                         return True
-        # single and pairwise facts
+        # single and pairwise facts (multipliers: small ones and the coefficient magnitudes that occur in R, e.g. the block size)
+        lams = sorted({1, 2, 3, 4} | {abs(c_) for c_ in R.values() if 0 < abs(c_) <= 4096})
         for g in facts:
-            for lam in (1, 2, 3, 4):
+            for lam in lams:
                 if self._trivially_nonneg(R.add(g, -lam)):
                     return True
         for i, g in enumerate(facts):
             for h in facts[i + 1:]:
                 if self._trivially_nonneg(R.add(g, -1).add(h, -1)):
                     return True
+        if len(lams) > 4:
+            big = [l_ for l_ in lams if l_ > 4]
+            for i, g in enumerate(facts):
+                for j, h in enumerate(facts):
+                    if i == j:
+                        continue
+                    for lg in big:
+                        if self._trivially_nonneg(R.add(g, -lg).add(h, -1)):
+                            return True
         return None
 
     def _apply_substs(self, lin):
@@ -409,7 +494,16 @@ class FnBounds:
             # second attempt: also split the merge phis that only occur in the dominating comparisons (a bound such as
             # i < n where n is a merge of two bounded values)
             syms = set(total.syms()) | set(nlin.syms())
-            rel = [g for g in self.ineqs_at(I.b) if set(g.syms()) & syms]
+            allf = self.ineqs_at(I.b)
+            rel = []
+            for _round in range(3):            # facts connected to the access through shared symbols (a quotient, then the value it divides ...)
+                more = [g for g in allf if g not in rel and set(g.syms()) & syms]
+                if not more:
+                    break
+                rel += more
+                for g in more:
+                    syms |= set(g.syms())
+            rel = rel[:24]
             if rel:
                 cases2 = [(fs[0], fs[1], ex) for (fs, ex) in self.split_forms([total, nlin] + rel)]
                 if len(cases2) > len(cases):
